@@ -156,3 +156,43 @@ func VH_C11_inconsistent() {
 		vAssert("C11.inc.control.no_false_positive", db2.Control() == nil)
 	}
 }
+
+// VH_C11_two: Control looks at every loaded collection: with two collections
+// on the handle and one of them diverged (a file removed, or an unindexed file
+// added), Control reports the corruption whatever order it visits them in, and
+// reports nothing when both are healthy.
+func VH_C11_two() {
+	db, root := vhOpenDB(vhCfgs[0])
+	vAssert("C11.two.create_b", db.Create(&vRich{}, DefaultSchema) == nil)
+	o := vhNewObj()
+	vAssert("C11.two.insert_a", db.InsertOrUpdate(o) == nil)
+	r := vhNewRich(0, "")
+	vAssert("C11.two.insert_b", db.InsertOrUpdate(r) == nil)
+	vAssert("C11.two.close", db.Close() == nil)
+	damaged := true
+	switch vChoice("damage", 5) {
+	case 0:
+		damaged = false
+	case 1:
+		vRemoveFile(root + "/sod.vObj/" + o.UUID() + ".json")
+	case 2:
+		vRemoveFile(root + "/sod.vRich/" + r.UUID() + ".json")
+	case 3:
+		vCopyFile(root+"/sod.vObj/"+o.UUID()+".json", root+"/sod.vObj/aaaaaaaa-aaaa-4aaa-8aaa-aaaaaaaaaaaa.json")
+	case 4:
+		vCopyFile(root+"/sod.vRich/"+r.UUID()+".json", root+"/sod.vRich/aaaaaaaa-aaaa-4aaa-8aaa-aaaaaaaaaaaa.json")
+	}
+	db2 := Open(root)
+	// both collections get loaded (a corrupted one is loaded all the same), in
+	// either order: the engine ranges over a map in insertion order
+	if vChoice("load_order", 2) == 0 {
+		db2.Schema(&vObj{})
+		db2.Schema(&vRich{})
+	} else {
+		db2.Schema(&vRich{})
+		db2.Schema(&vObj{})
+	}
+	cerr := db2.Control()
+	vAssert("C11.two.control_iff_any_diverged", vIff(IsIndexCorrupted(cerr), damaged))
+	vAssert("C11.two.no_other_error", cerr == nil || IsIndexCorrupted(cerr))
+}
